@@ -1152,4 +1152,29 @@ theorem callbacks_recorded (l : Loss) (g : Ghost) (op : Op) (hsp : op.SpaceOK) (
   | discardKeys sp => intro c hc; simp [step] at hc
   | setUnderutilized v => intro c hc; simp [step] at hc
 
+
+/-- A settled packet never changes again: the only transitions are `sent → acked` and `sent → lost`. -/
+theorem settles_final (p p' : Pkt) (h : Settles p p') (hs : p.state ≠ .sent) : p' = p := by
+  rcases h with h | ⟨h, _⟩
+  · exact h
+  · exact absurd h hs
+
+/-! ## Non-vacuity -/
+
+/-- 4 packets of 1000 bytes, ACK of #3 only: #0 is lost by the packet threshold, #3 acked,
+#1 and #2 stay in flight (2000 bytes); the window is halved on entering recovery. -/
+def demo : Loss × List Callback :=
+  let l := run (Loss.init 1200) [.send 2 1000 true true 0, .send 2 1000 true true 1, .send 2 1000 true true 2, .send 2 1000 true true 3]
+  let r := l.receiveAckRange 2 3 4
+  let e := r.1.receiveAckEnd 2 10 1000 none 5000
+  (e.1, r.2.1 ++ e.2)
+
+example : demo.2 = [(2, 3, Fate.acked), (2, 0, Fate.lost)] := by decide
+example : demo.1.cc.bytesInFlight = 2000 ∧ lossFlight demo.1 = 2000 ∧ demo.1.cc.cwnd = 6000 ∧ demo.1.cc.inRecovery = true := by decide
+example : Reachable (run (Loss.init 1200) [.send 2 1000 true true 0]) :=
+  ⟨1200, _, by decide, by intro o ho; simp at ho; subst ho; simp [Op.Valid], rfl⟩
+/-- Persistent congestion collapses the window to exactly the minimum. -/
+example : ((newReno 1200).packetLost 0 ⟨0, 100, 0, true, true, .sent⟩ (some 0) |>.packetLost 0 ⟨1, 100, 9000, true, true, .sent⟩ (some 0)
+            |>.packetBatchEnd 9500 0 3000).cwnd = 2400 := by decide
+
 end NetVerif.Proofs.C26
